@@ -245,6 +245,14 @@ let run_vm tk =
   done;
   pr "END"
 
+let run_checkprog tk =
+  let p = read_program tk in
+  let b x = if x then 1 else 0 in
+  pr "wf=%d acyclic=%d tables=%d nobreak=%d consts=%d counts=%d halt=%d targets=%d"
+    (b (VMCheck.wf_program p)) (b (VMCheck.acyclic_calls p)) (b (VMSpec.tables_ok p)) (b (VMSpec.no_break p))
+    (b (VMSpec.consts_in_range p)) (b (VMSpec.counts_ok p)) (b (VMCheck.ends_in_halt p))
+    (L.length (VMCheck.exec_targets p))
+
 (* ---- compiler stages ---- *)
 let string_of_coqstring (s : char list) : string =
   let b = Buffer.create 16 in L.iter (Buffer.add_char b) s; Buffer.contents b
@@ -412,6 +420,7 @@ let run_case tk =
   | "first" -> run_first tk
   | "lr" -> run_lr tk
   | "vm" -> run_vm tk
+  | "checkprog" -> run_checkprog tk
   | "scan" -> run_scan tk
   | _ -> pr "NOTMODELLED"
 
